@@ -5,10 +5,13 @@
   and of Substrate `RetryEventHandler.HandleEvents` as repaired by the `fix:` commits — loops, closures with `recover`,
   early exits, the destination map — parametric in the handlers (`ok | err | panic`, any function).
   Proved: for ALL handler functions and ALL deposit lists, the messages emitted for every destination are exactly the
-  messages of the deposits that succeed on their own, in their original order (`P06`); the skeletons are total functions,
-  so the range always terminates without an escaping panic.  Nothing is assumed about what "malformed" means.
-  Not in the model: a panic inside `events.Listener.FetchDeposits` itself (outside every recover) — `parseDeposit` is run
-  on hostile logs by the correspondence driver instead; RPC failures that abort a whole range (C05).
+  messages of the deposits that succeed on their own, in their original order (`P06`), and the channel receives exactly one
+  non-empty batch per such destination (`P06h`).  Nothing is assumed about what "malformed" means.
+  Not in the model, no Lean content: "whatever bytes", "terminates", "does not crash the process". The skeletons are total
+  Lean functions over an ABSTRACT handler (`ok | err | panic`); that the real decoders and handlers stay inside that
+  abstraction for every byte string (no fatal error, no endless loop, no panic outside a recover such as inside
+  `events.Listener.FetchDeposits`) is only exercised — by the correspondence driver in child processes — not proved; the
+  decoder-totality lemmas sketched in DESIGN 5.6 were not built. RPC failures abort a whole range (`abort`, C05).
   The as-found RetryV1 skeleton is kept and shown to violate P06 (`retryV1_asFound_violates`).
 -/
 import SygmaModel.Model.C06
@@ -180,8 +183,9 @@ theorem subRetry_isolated (dst : M → Nat) (blockOf : E → Outcome (List D)) (
   intro k _
   simp [foldl_events, DMap.empty]
 
-/-- excluded point: when a retry event cannot be resolved at all the whole range reports an error and nothing is sent
-    (the listener runs the range again) -/
+/-- excluded point (`hno` fails): when the node cannot serve the block of some retry event the whole range reports an error
+    and nothing is sent — the listener runs the range again. An UNDECODABLE retry event is not such a point: it is
+    skipped (`blockOf e = err`) and the other retry events of the range are served (fix 575328e). -/
 theorem subRetry_abort (dst : M → Nat) (blockOf : E → Outcome (List D)) (abort : E → Bool) (h : D → Outcome M)
     (evs : List E) (hab : evs.any abort = true) : subRetry dst blockOf abort h evs = none := by
   simp [subRetry, hab]
